@@ -53,7 +53,7 @@ theorem inv_add_fresh (w : MW) (h : InvCore w) (s : Nat) (e0 : SigE) (hfresh : w
       simp only [↓reduceIte, Option.some.injEq] at hx
       subst hx
       obtain ⟨h1, h2, h3, h4, h5, h6, h7⟩ := hmux gc gs hk
-      refine ⟨⟨by rw [h3]; simp, h1, h2⟩, ?_, ?_, ?_, ?_, ?_, ?_, ?_, ?_, ?_, ?_⟩
+      refine ⟨⟨by rw [h3]; simp, h1, h2⟩, ?_, ?_, ?_, ?_, ?_, ?_, ?_, ?_, ?_, ?_, by rw [h6]; exact List.nodup_nil⟩
       · intro g hg
         rw [h3] at hg
         have := List.eq_of_mem_replicate hg
